@@ -39,7 +39,8 @@ fn encoded_size(items: &[(u64, [u8; 32])]) -> usize {
 }
 
 fn encode_case(ctx: &mut Ctx, case: u64, rng: &mut Rng) {
-    let n = rng.range(0, 40);
+    // mostly small sets; one in five is large enough for the list-length prefix to need two bytes
+    let n = if rng.chance(1, 5) { rng.range(100, 300) } else { rng.range(0, 40) };
     let n_ts = rng.range(1, 6);
     // timestamps of very different varint widths, many shared
     let pool: Vec<u64> = (0..n_ts)
@@ -89,6 +90,24 @@ fn encode_case(ctx: &mut Ctx, case: u64, rng: &mut Rng) {
     let mut limits: Vec<usize> = vec![1, 2, 33, 34, 35, full.saturating_sub(1).max(1), full, full + 8];
     for _ in 0..4 {
         limits.push(rng.range(1, full + 8));
+    }
+    // limits at, just below and just above the exact size of the newest-k prefix, for several k
+    // (this is where an encoder that estimates sizes goes wrong, e.g. at k = 128 where the
+    // length prefix grows)
+    {
+        let mut items: Vec<(u64, [u8; 32])> = plain.iter().map(|(a, t)| (*t, *a)).collect();
+        items.sort();
+        items.reverse();
+        let mut ks: Vec<usize> = vec![1, 127, 128, 129, 200];
+        for _ in 0..3 {
+            ks.push(rng.range(0, items.len()));
+        }
+        for k in ks {
+            if k <= items.len() {
+                let sz = encoded_size(&items[..k]);
+                limits.extend([sz.saturating_sub(1).max(1), sz, sz + 1]);
+            }
+        }
     }
     for l in limits {
         ctx.count("limit_checks", 1);
